@@ -114,3 +114,69 @@ c03_zipf!(c03_zipf_f64_kf_n1, f64, 1e15, umax64, 1);
 //@ funcs: Zipf::<f32>::sample
 //@ bounds: n < 2, first uniform draw = 1 - 2^-24
 c03_zipf!(c03_zipf_f32_kf_n1, f32, 1e7, umax32, 1);
+
+// ------------------------------------------------------------------------------------------
+// C02: the normalising constant t of the rejection-inversion sampler on each side of the s = 1 switch
+//   s == 1:  t = 1 + ln n        s != 1:  t = (n^(1-s) - s) / (1 - s)        s = inf: t = 1
+// ------------------------------------------------------------------------------------------
+// free stubs restricted to values for which every t above is positive (Zipf::new debug_asserts t > 0)
+fn zv() -> f64 { if kani::any() { 1.0 } else { 0.75 } }
+fn z_un64(x: f64) -> f64 { flog_with(x, 0.0, zv()) }
+fn z_un32(x: f32) -> f32 { flog_with(x as f64, 0.0, zv()) as f32 }
+fn z_bin64(x: f64, y: f64) -> f64 { flog_with(x, y, zv()) }
+fn z_bin32(x: f32, y: f32) -> f32 { flog_with(x as f64, y as f64, zv()) as f32 }
+
+macro_rules! c02_zipf_t {
+    ($name:ident, $f:ty) => {
+        #[kani::proof]
+        #[kani::stub(libm::log, z_un64)]
+        #[kani::stub(libm::logf, z_un32)]
+        #[kani::stub(libm::log1p, z_un64)]
+        #[kani::stub(libm::log1pf, z_un32)]
+        #[kani::stub(libm::pow, z_bin64)]
+        #[kani::stub(libm::powf, z_bin32)]
+        fn $name() {
+            {
+                let n: $f = kani::any();
+                let sel: u8 = kani::any();
+                // s from concrete values on both sides of the switch (the reciprocal 1/(1-s) then folds)
+                let (s, q): ($f, $f) = match sel % 5 { 0 => (1.0, 0.0), 1 => (0.5, 2.0), 2 => (2.0, -1.0), 3 => (0.0, 1.0), _ => (3.0, -0.5) };
+                let d = match Zipf::<$f>::new(n, s) { Ok(d) => d, Err(_) => return };
+                let (a, b, g): (f64, f64, f64) = if native() {
+                    let g = if s == 1.0 { num_traits::Float::ln(n) } else { num_traits::Float::powf(n, 1.0 as $f - s) };
+                    (n as f64, (1.0 as $f - s) as f64, g as f64)
+                } else {
+                    vassert!(flog_n() == 1, "Zipf::new: expected exactly one libm call (ln n for s = 1, n^(1-s) otherwise)");
+                    flog_get(0)
+                };
+                vassert!(a == n as f64, "Zipf::new: the logarithm / power is not taken of n");
+                if s == 1.0 {
+                    vassert!(biteq64(d.t as f64, (1.0 as $f + g as $f) as f64), "Zipf::new (s = 1): t is not 1 + ln(n)");
+                } else {
+                    vassert!(b == (1.0 as $f - s) as f64, "Zipf::new: the exponent is not 1 - s");
+                    vassert!(d.q == q, "Zipf::new: q is not 1/(1-s)");
+                    vassert!(biteq64(d.t as f64, ((g as $f - s) * q) as f64), "Zipf::new (s != 1): t is not (n^(1-s) - s)/(1-s)");
+                }
+                kani::cover!(s == 1.0, "s = 1");
+                kani::cover!(s == 0.5, "s < 1");
+                kani::cover!(s == 3.0, "s > 1");
+            }
+        }
+    };
+}
+//@ id: c02_zipf_t_f64
+//@ prop: C02
+//@ tier: quick
+//@ cap: 900
+//@ funcs: Zipf::<f64>::new (t and q on both sides of the s = 1 switch)
+//@ bounds: every accepted n; s in {0, 1/2, 1, 2, 3}; the libm result in {1, 3/4} (values for which Zipf::new's debug_assert!(t > 0) holds)
+//@ assumes: libm::log, libm::pow (and log1p) replaced by free logging stubs (algebraic structure only)
+c02_zipf_t!(c02_zipf_t_f64, f64);
+//@ id: c02_zipf_t_f32
+//@ prop: C02
+//@ tier: quick
+//@ cap: 900
+//@ funcs: Zipf::<f32>::new
+//@ bounds: as c02_zipf_t_f64
+//@ assumes: libm::logf, libm::powf (and log1pf) replaced by free logging stubs
+c02_zipf_t!(c02_zipf_t_f32, f32);
